@@ -492,8 +492,20 @@ def p5_sites(repo: Repo) -> List[Tuple[Func, ast.Subscript]]:
     core = repo.mod(CORE)
     out = []
     for f in core.methods("GroupBy").values():
+        # locals that are plain aliases of the row codes:  row_codes = self.group_ikey  (single definition)
+        defs: Dict[str, List[ast.AST]] = {}
         for n in walk_no_nested(f.node):
-            if isinstance(n, ast.Subscript) and isinstance(n.ctx, ast.Load) and _is_group_ikey(n.slice):
+            if isinstance(n, ast.Assign) and len(n.targets) == 1 and isinstance(n.targets[0], ast.Name):
+                defs.setdefault(n.targets[0].id, []).append(n.value)
+        code_alias = {k for k, v in defs.items() if len(v) == 1 and _is_group_ikey(v[0])}
+        for n in ast.walk(f.node):
+            if isinstance(n, ast.Subscript) and isinstance(n.ctx, ast.Load) and (
+                    _is_group_ikey(n.slice) or (isinstance(n.slice, ast.Name) and n.slice.id in code_alias)):
+                if isinstance(n.slice, ast.Name):
+                    # present the site in its canonical form: the alias is replaced (in the in-memory tree of this run) by
+                    # the expression it stands for - a semantics-preserving copy propagation
+                    import copy as _copy
+                    n.slice = ast.copy_location(_copy.deepcopy(defs[n.slice.id][0]), n.slice)
                 out.append((f, n))
     return out
 
